@@ -185,15 +185,30 @@ class SimTcpTransport(_BaseTransport, asyncio.Transport):
         return True
 
     def pause_reading(self):
-        pass
+        # selector_events: the socket is no longer watched for reading; what arrives stays in the kernel's buffer
+        self._paused = True
 
     def resume_reading(self):
-        pass
+        if not getattr(self, "_paused", False):
+            return
+        self._paused = False
+        held, self._held = getattr(self, "_held", []), []
+        for (kind, payload, rec) in held:
+            self._loop.call_soon(self._deliver, kind, payload, rec)
+
+    def is_reading(self):
+        return not getattr(self, "_paused", False) and not self._closing
 
     def _deliver(self, kind, payload, rec):
         if self._conn_lost or self._closing:
             rec["status"] = "dropped:closed"
             self._net.count("delivery_to_closed")
+            return
+        if getattr(self, "_paused", False):
+            if not hasattr(self, "_held"):
+                self._held = []
+            self._held.append((kind, payload, rec))
+            self._net.count("held_while_reading_paused")
             return
         rec["status"] = "delivered"
         rec["t_run"] = self._net.world.clock.now
